@@ -18,7 +18,7 @@ func VerifResp_Budget() {
 	verifrt.SetNativeQuiesceMs(350)
 	k := 1 + verifrt.Choose("blocks", verifrt.Param("KMAX", 3))
 	g := verifrt.U64("global-budget")
-	verifrt.Assume(g < 1<<62)
+	_ = g // every 64-bit value
 	has := make([]bool, k)
 	for i := range has {
 		has[i] = true
@@ -31,7 +31,7 @@ func VerifResp_Budget() {
 	nreq := verifrt.Param("REQS", 2)
 	for q := 0; q < nreq; q++ {
 		r := verifrt.U64("request-budget")
-		verifrt.Assume(r < 1<<62)
+		_ = r // every 64-bit value
 		kA := key{pA, kit.ReqID(q)}
 		e.ReqVerdict[kA] = HookAccept
 		e.MaxLinks[kA] = r
